@@ -19,6 +19,7 @@ from .summaries import summary, deref, default_value
 
 B256 = z3.BitVecSort(256)
 DOM = z3.Function('hash_domain', B256, z3.IntSort())
+_atomic_terms = {}
 _dom_ids = {}
 _hash_fns = {}
 
@@ -87,6 +88,23 @@ def lift_ite(t, cap=24):
 
 def hash_apply(st, domain, leaves):
     """injective-by-construction hash application; facts are added to the state's path condition"""
+    if domain in getattr(G, 'atomic_domains', ()):
+        # abstraction for harnesses that assume the hashed objects pairwise different: one atomic symbol per object
+        mk = 'atomic:%s:%s' % (domain, '|'.join(l.sexpr() for l in leaves))
+        t = G.memo.get(mk)
+        if t is None:
+            t = z3.BitVec('H_%s_%d' % (re.sub(r'\W', '_', domain), len([k for k in G.memo if k.startswith('atomic:')])), 256)
+            for k2, t2 in list(G.memo.items()):
+                if k2.startswith('atomic:%s:' % domain):
+                    G.declare_distinct(t, t2)
+            G.memo[mk] = t
+            _atomic_terms[t.sexpr()] = domain
+            akey = (domain, ('atomic',))
+            if akey not in _hash_fns:
+                idx0 = len(_hash_fns) + 1
+                _hash_fns[akey] = (z3.Function('H%d_atomic_%s' % (idx0, re.sub(r'\W', '_', domain)), B256, B256), [], idx0)
+            G.add(DOM(t) == _hash_fns[akey][2])
+        return t
     key = (domain, tuple(l.sort().sexpr() for l in leaves))
     if key not in _hash_fns:
         idx = len(_hash_fns) + 1
@@ -135,6 +153,10 @@ def hash_eq(a, b):
             return z3.And(parts) if parts else z3.BoolVal(True)
     if G.distinct and (a.sexpr(), b.sexpr()) in G.distinct:
         return z3.BoolVal(False)
+    if a.size() == 256:
+        da, db = hash_domain_of(a), hash_domain_of(b)
+        if da is not None and db is not None and da != db:
+            return z3.BoolVal(False)
     return a == b
 
 
@@ -146,6 +168,8 @@ def hash_domain_of(term):
     """domain string of a hash term built by hash_apply (syntactic)"""
     if z3.is_app(term):
         name = term.decl().name()
+        if term.num_args() == 0 and term.sexpr() in _atomic_terms:
+            return _atomic_terms[term.sexpr()]
         for (domain, _), (f, invs, idx) in _hash_fns.items():
             if f.name() == name or name == 'H%d_const' % idx:
                 return domain
